@@ -297,6 +297,15 @@ func main() {
 	}
 	sh := &Shared{prog: prog, redirects: redirects, errType: errType, harness: hf, opts: opts, res: res, guards: guards, sizes: types.SizesFor("gc", "amd64")}
 	explore(sh)
+	if opts.Concrete == nil {
+		for _, cyc := range sh.lockCycles() {
+			res.Violations = append(res.Violations, &Violation{Label: "lock-order", Kind: "lockorder", Msg: cyc})
+		}
+		for _, e := range sh.lockEdges {
+			res.LockOrder = append(res.LockOrder, e.From+" -> "+e.To)
+		}
+		sort.Strings(res.LockOrder)
+	}
 
 	// status
 	res.Status = "ok"
